@@ -16,7 +16,44 @@ theorem guards_as_extracted :
     httpPutIsDisconnect = true ∧ wsPutIsDisconnect = true ∧ wsSendClosedGuard = true ∧ httpExitClosedGuard = true ∧
     httpStreamClosedLogsUnlessEnded = true ∧ httpLogGuardedClosed = true ∧ httpLogGuardedError = true ∧
     httpStateClosedBeforeLogClosed = true ∧ httpStateClosedBeforeLogError = true ∧ h11CloseStreamForgets = true ∧
-    h2CloseStreamPopsFirst = true ∧ httpSendsBeforeStateClosedClosed = true ∧ httpSendsBeforeStateClosedError = true := by decide
+    h2CloseStreamPopsFirst = true ∧ httpSendsBeforeStateClosedClosed = true ∧ httpSendsBeforeStateClosedError = true ∧
+    h2ClosedTellsEveryStream = true ∧ h2ClosedReleasesBuffers = true := by decide
+
+/-- **every report of `Closed` reaches every registered stream**, whether or not the connection was already marked closed:
+    `protocol.handle(Closed())` is, on both protocols and from any state, the program that closes each stream registered
+    at that moment (then releases waiting senders and a parked reader).  `Closed` is reported by several parties (a failed
+    write, the reader's end, the idle timer) and HTTP/2 registers new streams on a closed connection, so the report that
+    comes last must not be skipped -/
+theorem closed_tells_every_stream (f : Nat) (s : St) (w : Who) (rest : List Instr) :
+    exec (f + 1) s w (.handleClosed :: rest) =
+      exec f { s with pclosed := true } w (s.live.map Instr.closeStream ++ [.releaseDrains none] ++ [.canReadSet] ++ rest) := by
+  simp [exec, h2ClosedTellsEveryStream, h11ClosedSetsFlag, h11ClosedClosesStream, h11ClosedReleasesReader]
+
+/-- … and telling a registered stream closes it: afterwards the stream is closed, and if it was open with an application
+    its disconnect has been handed over in that very action (at most its put is still waiting for room: F08) -/
+theorem close_stream_tells (s : St) (w : Who) (i : Nat) (pop : Bool) (hl : i ∈ s.live) :
+    ((closeStreamP s w i pop).1.inst i).closed = true ∧
+    ((s.inst i).closed = false → (s.inst i).hasApp = true →
+      ((closeStreamP s w i pop).1.inst i).discPuts = (s.inst i).discPuts + 1) := by
+  have hc : s.live.contains i = true := by simpa using hl
+  obtain ⟨m1, _, _, _, m5, _, m7, _⟩ := markStreamClosed_fields (s.inst i)
+  unfold closeStreamP
+  simp only [hc, Bool.not_true, Bool.false_eq_true, if_false]
+  split
+  · rename_i hg
+    simp only [Bool.and_eq_true] at hg
+    exact ⟨hg.2, fun h0 => by rw [h0] at hg; exact absurd hg.2 (by simp)⟩
+  · split
+    · rename_i ha
+      have e : ((offer (({ s with live := if pop = true then s.live.erase i else s.live } : St).setInst i (s.inst i).markStreamClosed |>.emit
+          (if (s.inst i).streamClosedLogs then [.access i none] else [])) w i .disconnect).1.inst i) =
+          ((s.inst i).markStreamClosed.offer s.cfg.cap w .disconnect).1 := by
+        simp [offer, St.setInst, St.emit, upd]
+      refine ⟨?_, fun _ _ => ?_⟩
+      · rw [e, (offer_same _ _ _ _).1]; exact m1
+      · rw [e, (offer_counts _ _ _ _).1, m7]; simp
+    · rename_i ha
+      refine ⟨by simp [St.setInst, St.emit, upd, m1], fun _ h1 => absurd h1 ha⟩
 
 /-- **disconnect_at_most_once**: at every moment of every run, at most one disconnect has been handed to an instance
     and nothing was handed over after it -/
@@ -100,8 +137,7 @@ theorem disconnect_exactly_once (cfg : Cfg) (ops : List Op) (s s' : St) (hr : ru
     simp only [step] at hd
     split at hd
     · simp at hd; subst hd
-      simp only [St.emit, St.stopTimer, St.closeTransport]
-      split <;> split <;> rfl
+      simp [St.emit, closeTransport_inst, stopTimer_inst]
     · simp at hd
   rw [hs']
   exact ⟨h1, (hI.inst i).d6 h1⟩
@@ -170,6 +206,16 @@ def resetAtWrite (k : Nat) : List Op :=
   [.read, .head {}, .eom, .needData, .failAfter k, .appSend 0 (.start false), .appSend 0 (.body true true), .appSend 0 (.body false true)]
 example : ([1, 2, 3].map fun k => (run (init {}) (resetAtWrite k)).map (fun s => ((s.inst 0).access, (s.inst 0).discPuts, (s.inst 0).closed))) =
     [some (1, 1, true), some (1, 1, true), some (1, 1, true)] := by decide
+/-- HTTP/2, `Closed` reported twice with a stream opened in between: a write fails while the reader still runs (stream 0 is
+    told), a request the client had sent before it left is read and given to a new application (stream 1, registered on a
+    closed connection), the reader reaches EOF and reports `Closed` again: stream 1 is told then; each got exactly one
+    disconnect and nothing stays registered -/
+def closedTwice : List Op :=
+  [.read, .head {}, .h2eom 0, .needData, .appRecv 0, .failWrites, .appSend 0 (.start false),
+   .read, .head {}, .h2eom 1, .needData, .appRecv 1, .readEof, .needData]
+example : (run (init { proto := .h2 }) closedTwice).map (fun s => ((s.inst 0).discPuts, (s.inst 1).discPuts, (s.inst 1).handed, s.live, s.pclosed && s.rpc == .finished)) =
+    some (1, 1, [.request false, .disconnect], [], true) := by decide
+
 /-- F08 (known): application gone without reading, queue full: the closer's `put(disconnect)` blocks for ever - the
     handler can never exit, although the disconnect has been handed over exactly once -/
 def f08 : List Op := [.read, .head {}, .body, .body, .needData, .appExit 0, .readEof, .connClosed]
